@@ -12,7 +12,7 @@ import signal
 from types import SimpleNamespace
 from typing import List
 
-from engine.harness_api import Ob, setup, kf_ok, ns
+from engine.harness_api import Ob, setup, kf_ok, ns, pick
 setup(shim=False)
 
 import gunicorn.arbiter as A  # noqa: E402
@@ -192,6 +192,7 @@ def kill_step(tracked: List[bool], present: List[bool], which: int, all_: bool) 
     post: __return__
     """
     k = CASE["k"]
+    which = pick(which, 0, k - 1)           # keep the pid concrete (it ends up in exception messages)
     K = KS.Kernel()
     arb = mk_arbiter(K, k, ages=list(range(1, k + 1)))
     pids = list(K.order)
